@@ -7,6 +7,7 @@ import (
 	"go/token"
 	"go/types"
 	"sort"
+	"strconv"
 	"strings"
 	"unicode"
 )
@@ -123,6 +124,22 @@ func (c *ctx) cmpStringOf(e ast.Expr, op token.Token, r *ast.Ident) (string, boo
 		return s, true
 	}
 	if s, ok := strLit(b.X); ok && c.stringOf(b.Y, r) {
+		return s, true
+	}
+	// the same comparison written on the rune itself: `r == '*'` (string(r) is a one-character string exactly
+	// when r is that character)
+	runeLit := func(e ast.Expr) (string, bool) {
+		if bl, ok := unparen(e).(*ast.BasicLit); ok && bl.Kind == token.CHAR {
+			if v, err := strconv.Unquote(bl.Value); err == nil {
+				return v, true
+			}
+		}
+		return "", false
+	}
+	if s, ok := runeLit(b.Y); ok && c.sameIdent(b.X, r) {
+		return s, true
+	}
+	if s, ok := runeLit(b.X); ok && c.sameIdent(b.Y, r) {
 		return s, true
 	}
 	return "", false
